@@ -12,7 +12,7 @@ FILES = {
  'cozy-chess/src/board/validate.rs': ['C06', 'C09', 'C08'],
  'cozy-chess/src/board/parse.rs': ['C08', 'C07'],
  'cozy-chess/src/board/builder.rs': ['C09', 'C06'],
- 'cozy-chess/src/board/zobrist.rs': ['C10', 'C11'],
+ 'cozy-chess/src/board/zobrist.rs': ['C10', 'C11', 'C13'],
  'cozy-chess/src/board/movegen/piece_moves.rs': ['C17', 'C01'],
  'cozy-chess/src/util/mod.rs': ['C20'],
  'cozy-chess/src/moves.rs': ['C05', 'C01'],
